@@ -576,6 +576,15 @@ pub fn cmp_val(a: &Val, b: &Val) -> Ordering {
 			x.len().cmp(&y.len())
 		},
 		(Repeat(n, _), Repeat(m, _)) => n.cmp(m),
+		(Variant(i, x), Variant(j, y)) => i.cmp(j).then_with(|| {
+			for (p, q) in x.iter().zip(y) {
+				let o = cmp_val(p, q);
+				if o != Ordering::Equal {
+					return o;
+				}
+			}
+			x.len().cmp(&y.len())
+		}),
 		_ => panic!("model: unordered key values {} / {}", a.brief(60), b.brief(60)),
 	}
 }
